@@ -871,7 +871,9 @@ class DBusObjectHandler :
 
             def send_error(err):
                 e = err.value
-                errMsg = err.getErrorMessage()
+                # DBus strings carry neither NUL nor lone surrogates
+                errMsg = err.getErrorMessage().replace('\0', '').encode(
+                    'utf-8', 'replace').decode('utf-8')
                 name = None
 
                 if hasattr(e, 'dbusErrorName'):
